@@ -1331,7 +1331,12 @@ def finishPending (s : St) (recs : List Obs) (acc : Option Toks) : St :=
           -- the current record is replaced by a decoded one
           let buf := unhex (tget t "buf")
           let m := decode d.S buf
-          let s := s.cmp "dec.res" (match m with | .ok _ => "ok" | .error _ => "err") (resClass (tget o "res"))
+          -- (whether a record with a 65-byte SEC1 key is taken is left to the implementation)
+          let longKey := match m with
+            | .ok (r, _) => (match pubEntry r.content kSecp with | .ok b => b.length == 65 | .error _ => false)
+            | .error _ => false
+          let s := if longKey then s.chk else
+            s.cmp "dec.res" (match m with | .ok _ => "ok" | .error _ => "err") (resClass (tget o "res"))
           match rec1, m with
           | some now, .ok (r, _) =>
             if resClass (tget o "res") == "ok" then { (cmpRec s "dec" r now) with cur := some now } else s
